@@ -26,7 +26,7 @@ from . import rewrite
 from .source import ExtractError, mask, match_close, norm
 
 DIRECTIVE = re.compile(r'^\s*//@(\w+!?)\s*(.*)$')
-RAW_KINDS = ('spec', 'loop', 'before', 'after', 'sig', 'prefix', 'closure', 'tail')
+RAW_KINDS = ('spec', 'loop', 'before', 'after', 'sig', 'prefix', 'closure', 'tail', 'loopstart', 'loopend', 'head')
 
 
 class ItemSpec:
@@ -311,6 +311,14 @@ def build_item(src, spec, idx, log):
                     break
                 j += 1
             inserts.append((j, [''] + lines, okey))
+        elif kind == 'head':
+            inserts.append((hdr_end + 1, [''] + lines, okey))
+        elif kind == 'loopstart':
+            pos = _loop_body_open(m, hdr_end, int(arg))
+            inserts.append((pos + 1, [''] + lines, ('loopstart', arg, tline)))
+        elif kind == 'loopend':
+            pos = match_close(m, _loop_body_open(m, hdr_end, int(arg)))
+            inserts.append((pos, [''] + lines, ('loopend', arg, tline)))
         elif kind == 'tail':
             # before the tail expression of the fn body (or at its end if there is none)
             close = match_close(m, hdr_end)
